@@ -59,16 +59,20 @@ def step (st : St) (op impl : String) : St × String × Verdict :=
       | some ops => (st, renderOps ops, .unknown)
       | none => (st, "bad-op unknown method " ++ st.method, .unknown)
   | ["crash", k, t] =>
+      -- the SPECIFICATION is applied to the implementation's answer whatever the extracted list says:
+      -- the crash directories are built from the TRACED syscalls of the real operation
+      let bad := !(impl == "ok old" || impl == "ok new")
       match opsFor st.method, k.toNat?, t.toNat? with
       | some ops, some k, some t =>
           let m := classify st ops k t
-          if impl == "ok old" || impl == "ok new" then
-            -- the property holds on this crash point
+          if !bad then
             if m == impl then (st, impl, .hold) else (st, m, .hold)
           else
             (st, if m == "bad" then "ok old|ok new (model of the current source also predicts a damaged file)"
-                 else m, .fail)
-      | _, _, _ => (st, "bad-op", .unknown)
+                 else "ok old|ok new; model: " ++ m, .fail)
+      | _, _, _ =>
+          if bad then (st, "ok old|ok new (no extracted operation list for this method)", .fail)
+          else (st, "bad-op", .unknown)
   | _ => (st, "bad-op", .unknown)
 
 end Sky.C20
